@@ -879,6 +879,7 @@ pub fn c11(tier: &str) -> ! {
             check_directory: true,
             prefix: "C11",
             cross_cfg: false,
+            atomicity_only: false,
         };
         let all_cfgs = ["T300", "T300n", "M2", "M2n"];
         let hs: Vec<_> = covering_histories(&all_cfgs).into_iter().chain(shrink_history()).collect();
